@@ -37,7 +37,8 @@ THEOREMS = ['C05_rest_isothermal_steady', 'C05_primeq_column_refines_spec', 'C05
             'C05_solid_body_steady', 'C05_sw_polynomial_jet_steady', 'C05_sw_solid_body_one_layer',
             'C05_one_layer_formulas_balanced', 'C05_multi_layer_formulas_balanced', 'C05_differential_ring_instance',
             'C05_solid_body_steady_series', 'C05_sw_solid_body_series', 'C05_rest_isothermal_steady_R',
-            'C05_hyps_satisfiable', 'C05_modal_hyps_satisfiable', 'C05_rest_moist_hyps_satisfiable']
+            'C05_hyps_satisfiable', 'C05_modal_hyps_satisfiable', 'C05_rest_moist_hyps_satisfiable',
+            'C05_model_is_source', 'C05_gen_primeq_complete']
 LEVEL = 'proof'
 LEVEL_TEXT = ('machine-checked theorems (Coq), every field, every layer count, every level set: the nodal column algebra of '
               'the implementation (explicit + implicit) equals the documented vertical discretisation of the continuous '
@@ -742,7 +743,13 @@ def r_pe_solid_body(ctx, a):
     ctx.table_obligation('solid-body family satisfies the pointwise balance (spec divergence tendency = 0)',
                          float(np.max(np.abs(nodal_of(sp['divergence'], xyz) * wc))) <= 1e-9 * (maxabs(M['divergence'], xyz) + 1e-300),
                          {'residual': float(np.max(np.abs(nodal_of(sp['divergence'], xyz) * wc))), 'scale': maxabs(M['divergence'], xyz)})
-    steady(ctx, f'{kind}: solid-body rotation in gradient-wind balance ({a["mode"]}): divergence tendency = 0', tot['divergence'], dsc)
+    # "largest individual term" of the divergence equation: M['divergence'] holds lap(Phi_k) AFTER the Laplacian, which
+    # annihilates the horizontally constant part R G.Tbar of the geopotential analytically; numerically that part is still
+    # summed (its rounding error leaks into l <= LM with the eigenvalue LM (LM+1) / a^2), so it belongs to the scale
+    # (false alarm on the tall grid gt300, seed 0, relative residual 1.9e-10 of the differentiated terms: DESIGN 9.2)
+    geo_mag = float(np.max(np.abs(geo_weights(b, R)) @ ((np.abs(Tbar) + np.abs(tau)) * (1 + abs(eps) * q0)))) + abs(specs.g * gam)
+    dsc_div = dsc + LM * (LM + 1) / rad ** 2 * geo_mag
+    steady(ctx, f'{kind}: solid-body rotation in gradient-wind balance ({a["mode"]}): divergence tendency = 0', tot['divergence'], dsc_div)
     steady(ctx, f'{kind}: solid-body rotation ({a["mode"]}): vorticity tendency = 0', tot['vorticity'], dsc)
     adv = float(np.max(np.abs(Uk))) / rad
     steady(ctx, f'{kind}: solid-body rotation ({a["mode"]}): temperature tendency = 0', tot['temperature_variation'],
